@@ -75,8 +75,8 @@ def WFB : B → Prop
     (∀ k ∈ dec idx, ∀ j : Int, k = .int j → 0 ≤ j ∧ j.toNat < index.length)
   | .union _ fs types offs cur =>
     types.length = offs.length ∧ cur.length = fs.length ∧ WFU fs cur ∧
-    (∀ (i : Nat) (t o : Int), types[i]? = some t → offs[i]? = some o →
-      0 ≤ t ∧ 0 ≤ o ∧ ∃ c, fs.get? t.toNat = some c ∧ o.toNat < (dec c.1).length)
+    (∀ to ∈ types.zip offs,
+      0 ≤ to.1 ∧ 0 ≤ to.2 ∧ ∃ c, fs.get? to.1.toNat = some c ∧ to.2.toNat < (dec c.1).length)
 /-- struct children: all well formed and all at the row count -/
 def WFL : BL → Nat → Prop
   | .nil, _ => True
